@@ -26,6 +26,17 @@ class LocalOnlyError(Exception):
         super().__init__("%s|%s" % (a, b))
 
 
+class DecoratedError(Exception):
+    """an exception class whose text is composed in __str__ (and that cannot be rebuilt from one string)"""
+
+    def __init__(self, key, table):
+        super().__init__(key)
+        self.table = table
+
+    def __str__(self):
+        return "no row %s in %s" % (self.args[0], self.table)
+
+
 class Outer:
     class NestedError(Exception):
         """an exception class with a dotted qualified name"""
@@ -143,6 +154,8 @@ def _run(name, spec, extra=None):
             raise FnLocalError(msg)
         if cls == "Nested":
             raise Outer.NestedError(msg)
+        if cls == "Decorated":
+            raise DecoratedError(msg, "users")
         raise {"ValueError": ValueError, "KeyError": KeyError, "IOError": IOError,
                "ZeroDivisionError": ZeroDivisionError}[cls](msg)
     val = make_value(spec.get("ret", {"k": "sum", "v": spec.get("id", 0)}), total)
